@@ -282,8 +282,11 @@ class TlcResult:
     def action_counts(self):
         """Per-action distinct/total counts from `-coverage`."""
         res = {}
-        for m in re.finditer(r"^<(\w+) line \d+, col \d+ to line \d+, col \d+ of module (\w+)>: (\d+):(\d+)", self.out, re.M):
-            res[m.group(1)] = (int(m.group(3)), int(m.group(4)))
+        for m in re.finditer(r"^<(\w+) line \d+, col \d+ to line \d+, col \d+ of module (\w+)(?: \((\d+)[\d ]*\))?>: (\d+):(\d+)",
+                             self.out, re.M):
+            # disjuncts of Next without a name of their own carry a location suffix: key "Next@<line>"
+            key = m.group(1) if m.group(3) is None else "%s@%s" % (m.group(1), m.group(3))
+            res[key] = (int(m.group(4)), int(m.group(5)))
         return res
 
 
